@@ -2,6 +2,7 @@ package props
 
 import (
 	"go/token"
+	"strings"
 
 	"golang.org/x/tools/go/ssa"
 
@@ -333,6 +334,52 @@ func c09() []*Ob {
 							c.Violation("order:storeDocs:cold-before-hot", h.Pos(), "the hot tier can be written on a path where the cold tier neither accepted the bulk now nor was marked written before")
 						}
 					}
+				}
+			}},
+		{Prop: "C09", ID: "C09.7", Engine: "PROV", Floor: 1,
+			Desc: "the written-bits of one bulk never leak into another: the write status that StoreDocuments hands to storeDocs is created by newBulkWriteStatus inside that call (or, if it comes from somewhere else, is reset on every path before its first use), so a replica or tier that accepted an earlier payload is never skipped for this one",
+			Check: func(c *Ctx) {
+				fn := c.Fn("(*proxy/bulk.SeqDBClient).StoreDocuments")
+				if fn == nil {
+					return
+				}
+				fresh := func(v ssa.Value) bool {
+					cl, ok := v.(ssa.CallInstruction)
+					return ok && CallName(cl) == "proxy/bulk.newBulkWriteStatus"
+				}
+				n := 0
+				for _, call := range CallsIn(fn, Callee("(*proxy/bulk.SeqDBClient).storeDocs")) {
+					for _, a := range call.Common().Args {
+						if !strings.HasSuffix(a.Type().String(), "bulkWriteStatus") {
+							continue
+						}
+						n++
+						if c.P.DerivesFromIP(a, fresh) && !DerivesFrom(a, func(v ssa.Value) bool {
+							cl, ok := v.(ssa.CallInstruction)
+							return ok && (CallName(cl) == "(*sync.Pool).Get" || strings.HasPrefix(CallName(cl), "dynamic"))
+						}) {
+							c.Site(call.Pos(), "the write status is created for this bulk")
+							continue
+						}
+						// reused object: a reset must precede every use
+						resets := CallsIn(fn, func(cl ssa.CallInstruction) bool {
+							return strings.Contains(CallName(cl), "bulkWriteStatus).reset") || strings.Contains(CallName(cl), "bulkWriteStatus).Reset")
+						})
+						okReset := false
+						for _, r := range resets {
+							if Dominates(r.(ssa.Instruction), call.(ssa.Instruction)) {
+								okReset = true
+							}
+						}
+						if okReset {
+							c.Site(call.Pos(), "the reused write status is reset before its first use")
+						} else {
+							c.Violation("prov:StoreDocuments:stale-write-status", call.Pos(), "the write status passed to storeDocs is not created for this bulk and is not reset before use: bits left by an earlier bulk (a failed one returns early) make replicas or the cold tier count as written for this payload")
+						}
+					}
+				}
+				if n == 0 {
+					c.Undecided("prov:StoreDocuments:no-status", fn.Pos(), "StoreDocuments no longer passes a write status to storeDocs")
 				}
 			}},
 		{Prop: "C09", ID: "C09.6", Engine: "ACK", Floor: 1,
